@@ -156,10 +156,17 @@ Definition pcase_ok (p : plan_kind * list N * (N * N * N)) : bool :=
 Definition fixes_of_mask (b : N) : fixes :=
   mkFixes (N.testbit b 0) (N.testbit b 1) (N.testbit b 2) (N.testbit b 3).
 Definition masks16 : list N := [0;1;2;3;4;5;6;7;8;9;10;11;12;13;14;15].
-(* field: 0 witness count, 1 witness size, 2 scriptSig size *)
+(* field: 0 witness count, 1 witness size, 2 scriptSig size,
+          4 stack depth bound (max_witness_stack_count + max_exec_stack_count),
+          5 opcode bound (static_ops + max_exec_op_count) *)
 Definition ms_figure (fx : fixes) (c : cid) (m : ms) (field : N) : option N :=
-  option_map (fun d => match field with 0 => sd_wcount d | 1 => sd_wsize d | _ => sd_ssig d end)
-             (sat_data (ext_of_gen fx (cx c) m)).
+  let e := ext_of_gen fx (cx c) m in
+  option_map (fun d => match field with
+                       | 0 => sd_wcount d | 1 => sd_wsize d | 2 => sd_ssig d
+                       | 4 => sd_wcount d + sd_estack d
+                       | _ => static_ops e + sd_eops d
+                       end)
+             (sat_data e).
 Definition covers (fig : option N) (measured : N) : bool :=
   match fig with Some f => measured <=? f | None => false end.
 Definition attr_ms (c : cid) (m : ms) (field measured : N) : list N :=
